@@ -119,6 +119,28 @@ def r1(prog, rep):
             e = [(_dotted(x.value.func), T(mod, x.value.args[0])) for x in s.orelse if isinstance(x, ast.Expr) and isinstance(x.value, ast.Call) and _dotted(x.value.func) in ("write_1d", "write_2d")]
             if b and e:
                 wseq.append((b[0][0], b[0][1] + "|" + e[0][1]))
+    # presence guards test the key they protect: `if "k" in data:` ... data["k"] ...
+    n_guards = 0
+    for fn_ in (w, r, prog.module(TOK).funcs.get("read_geqdsk")):
+        if fn_ is None:
+            continue
+        for n in ast.walk(fn_.node):
+            if not (isinstance(n, ast.If)):
+                continue
+            tests = n.test.values if isinstance(n.test, ast.BoolOp) and isinstance(n.test.op, ast.And) else [n.test]
+            tested = {}
+            for t_ in tests:
+                if isinstance(t_, ast.Compare) and len(t_.ops) == 1 and isinstance(t_.ops[0], ast.In) and isinstance(t_.left, ast.Constant) and isinstance(t_.left.value, str) and isinstance(t_.comparators[0], ast.Name):
+                    tested.setdefault(t_.comparators[0].id, set()).add(t_.left.value)
+            for dname, keys in tested.items():
+                used = {x.slice.value for b_ in n.body for x in ast.walk(b_) if isinstance(x, ast.Subscript) and isinstance(x.value, ast.Name) and x.value.id == dname
+                        and isinstance(x.slice, ast.Constant) and isinstance(x.slice.value, str) and isinstance(x.ctx, ast.Load)}
+                if not used:
+                    continue
+                n_guards += 1
+                rep.ob("R1", "%s: entries read under the presence test %s are the tested ones" % (fn_.qualname, sorted(keys)), used <= keys, fn_.site(n),
+                       "reads %s[%s] under a test of %s" % (dname, sorted(used - keys), sorted(keys)), key="guard-key/%s/%s" % (fn_.qualname, "+".join(sorted(keys))))
+    rep.floor("R1.presence-guards", n_guards, 4)
     rseq = []
     for s in r.node.body:
         if isinstance(s, ast.Assign) and isinstance(s.targets[0], ast.Subscript) and isinstance(s.value, ast.Call) and isinstance(s.value.func, ast.Name) and s.value.func.id in ("read_1d", "read_2d"):
